@@ -1190,3 +1190,58 @@ Section Out.
     exists r0, k0, w', k', r'. split; [assumption|]. split; [assumption|]. now apply (GS_cover _ _ _ hot').
   Qed.
 End Out.
+
+Lemma ops_x_cons C w hot o ops w' : apply_op w o = Some w' -> step_ok C w hot o -> ops_x C w' (hot_next C w hot o) ops ->
+  ops_x C w hot (o :: ops).
+Proof. intros Ha Hs Hc. cbn [ops_x]. rewrite Ha. now split. Qed.
+
+(* ---------------------------------------------------------------- the F10 histories, repaired and pinned *)
+Definition cfgo (moveout : bool) : cfg :=
+  {| c_recursive := true; c_mask := WATCHDOG_ALL; c_root := pR; c_fix_ignored := true; c_fix_movein := true;
+     c_fix_simulate := true; c_fix_moveout := moveout; c_faults := [] |}.
+
+(* F10b: mv R/b O/x; (drain); mkdir R/b; mv R/b R/a      (preceded by mkdir R/b) *)
+Definition f10b_ops : list op :=
+  [Mkdir (sub pR 98); Rename (sub pR 98) (sub pO 120); Mkdir (sub pR 98); Rename (sub pR 98) (sub pR 97)].
+(* F10c / F10d: mv R/b/b O/x; mv O/x R/n; mv R/b R/m; touch R/n/f      (preceded by mkdir R/b; mkdir R/b/b) *)
+Definition f10d_ops : list op :=
+  [Mkdir (sub pR 98); Mkdir (sub (sub pR 98) 98); Rename (sub (sub pR 98) 98) (sub pO 120);
+   Rename (sub pO 120) (sub pR 110); Rename (sub pR 98) (sub pR 109); Touch (sub (sub pR 110) 102)].
+
+Definition run_ops (C : cfg) (ops : list op) : option (world * kst * rstate) :=
+  match construct C kinit (w_fs w0) with
+  | Some (r, k) => rrun C w0 k r ops
+  | None => None
+  end.
+
+(* pinned code (c_fix_moveout = false): after the F10d history the directory R/n is not covered - its descriptor was
+   re-keyed to R/m/b through the stale entry R/b/b *)
+Lemma f10d_pinned_refuted :
+  exists w' k' r', run_ops (cfgo false) f10d_ops = Some (w', k', r') /\ k_queue k' = [] /\ ~ Cover (cfgo false) (w_fs w') k' r'.
+Proof.
+  eexists _, _, _. split; [vm_compute; reflexivity|]. split; [reflexivity|].
+  intros H. apply coverb_spec in H. vm_compute in H. discriminate.
+Qed.
+
+Lemma f10d_repaired :
+  exists w' k' r', run_ops (cfgo true) f10d_ops = Some (w', k', r') /\ k_queue k' = [] /\ pend r' = None /\
+    Cover (cfgo true) (w_fs w') k' r' /\ length (k_watches k') = 3%nat.
+Proof.
+  eexists _, _, _. split; [vm_compute; reflexivity|]. split; [reflexivity|]. split; [reflexivity|].
+  split; [apply coverb_spec; vm_compute; reflexivity | reflexivity].
+Qed.
+
+(* F10b: the pinned code keeps the kernel watch of the departed directory for ever (3 watches for 2 directories in the
+   tree), the repaired code has dropped it *)
+Lemma f10b_pinned_stale :
+  exists w' k' r', run_ops (cfgo false) f10b_ops = Some (w', k', r') /\ length (k_watches k') = 3%nat /\
+    length (filter (fun e => f_dir e && scopeb (cfgo false) (f_path e)) (w_fs w')) = 2%nat.
+Proof. eexists _, _, _. split; [vm_compute; reflexivity|]. split; reflexivity. Qed.
+
+Lemma f10b_repaired :
+  exists w' k' r', run_ops (cfgo true) f10b_ops = Some (w', k', r') /\ length (k_watches k') = 2%nat /\
+    Cover (cfgo true) (w_fs w') k' r' /\ k_queue k' = [] /\ pend r' = None.
+Proof.
+  eexists _, _, _. split; [vm_compute; reflexivity|]. split; [reflexivity|].
+  split; [apply coverb_spec; vm_compute; reflexivity | split; reflexivity].
+Qed.
